@@ -208,10 +208,16 @@ func startsWithIntLiteral(n ast.IsNode) bool {
 	}
 }
 
-// A negative integer literal renders with a leading minus sign, so it binds like a unary expression.
+// A negative integer literal renders with a leading minus sign, so it binds like a unary expression;
+// a decimal, ipaddr, datetime or duration value renders as an extension call, so it binds like one.
 func (n NodeValue) precedenceLevel() nodePrecedenceLevel {
-	if l, ok := n.Value.(types.Long); ok && l < 0 {
-		return unaryPrecedence
+	switch v := n.Value.(type) {
+	case types.Long:
+		if v < 0 {
+			return unaryPrecedence
+		}
+	case types.Decimal, types.IPAddr, types.Datetime, types.Duration:
+		return accessPrecedence
 	}
 	return primaryPrecedence
 }
